@@ -519,6 +519,9 @@ func (ex *Exec) invokeMethod(fr *Frame, recv Value, m *types.Func, args []Value,
 		panic(ex.goPanic("nil interface method call %s", m.Name()))
 	}
 	if op, ok := iv.v.(*OpaqueV); ok {
+		if op.kind == "dummy" || op.kind == "context" {
+			return ex.dummySig(m.Type().(*types.Signature))
+		}
 		name := "opaque:" + op.kind + "." + m.Name()
 		if ic, ok := intercepts[name]; ok {
 			return ic(ex, fr, append([]Value{op}, args...), site)
